@@ -7,7 +7,7 @@ import XixiKV.Proofs.ShardIter
 into it; `Iter.skip` moves the index to the next item whose key has the prefix.  `ShardIter.Abs`
 (`Model/ShardIter.lean`) keeps the *filtered* snapshot and an index into that.  This file proves
 that the two show the same `(Valid, Key, Pos)` on the fresh iterator and after every call of every
-admissible call sequence (`Iter.trace_eq`).
+call sequence (`Iter.trace_eq`); `Seek` is forward-only on both sides.
 
 The simulation relates the two cursors through their *remaining lists*:
 `(items.drop cur).filter hasPrefix = A.drop i`, with `cur` *settled* (it stands on an item with
@@ -198,66 +198,89 @@ theorem CSim.next {L : List (Key × Pos)} {pre : Key} {rev : Bool} {it : Iter} {
     rw [if_neg hv, if_neg hv']
     exact h
 
+theorem CSim.sortedA {L : List (Key × Pos)} {pre : Key} {rev : Bool} {it : Iter} {a : Abs Pos}
+    (h : CSim L pre rev it a) (hs : Sorted rev L) : Sorted a.reverse a.A := by
+  rw [h.aA, h.arev]; exact hs.filter _
+
 theorem CSim.seek {L : List (Key × Pos)} {pre : Key} {rev : Bool} {it : Iter} {a : Abs Pos}
-    (h : CSim L pre rev it a) (hs : Sorted rev L) (k : Key)
-    (hadm : a.i ≤ Abs.lowerBound a.reverse k a.A) : CSim L pre rev (it.seek k) (a.seek k) := by
-  unfold Iter.seek Abs.seek
-  have hlb : a.A.drop (Abs.lowerBound a.reverse k a.A) = a.A.dropWhile (fun x => before rev x.1 k) := by
-    unfold Abs.lowerBound
-    rw [h.arev, drop_findIdx]
-    simp only [Bool.not_not]
-  by_cases hv : it.cur < it.items.length
-  · rw [if_pos hv]
+    (h : CSim L pre rev it a) (hs : Sorted rev L) (k : Key) : CSim L pre rev (it.seek k) (a.seek k) := by
+  unfold Iter.seek
+  have hcell := h.cell
+  cases hc : it.items[it.cur]? with
+  | none =>
+    -- exhausted: both sides ignore the call
     simp only []
-    apply Pre.skip
-    refine ⟨h.items, h.hpre, h.hrev, h.arev, h.aA, ?_, List.findIdx_le_length⟩
-    have hq : (fun x : Key × Pos => if it.rev = true then keyLt k x.1 else keyLt x.1 k)
-        = (fun x : Key × Pos => before rev x.1 k) := by
-      funext x
-      rw [h.hrev]
-      rfl
-    show (L.drop ((it.items.takeWhile _).length)).filter _ = a.A.drop (Abs.lowerBound a.reverse k a.A)
-    rw [hlb, hq, h.items, drop_length_takeWhile, h.aA]
-    exact (filter_dropWhile_before hs _ k).symm
-  · rw [if_neg hv]
-    -- exhausted: the Go code ignores the call; admissibility pins the abstract cursor at the end
-    have hv' : ¬ a.i < a.A.length := fun x => hv (h.valid.mpr x)
-    have hle : Abs.lowerBound a.reverse k a.A ≤ a.A.length := List.findIdx_le_length
-    have hi : a.i = a.A.length := Nat.le_antisymm h.le (Nat.le_of_not_lt hv')
-    have he : Abs.lowerBound a.reverse k a.A = a.i := by omega
-    rw [he]
+    rw [hc] at hcell
+    have hv' : ¬ a.i < a.A.length := by
+      intro hlt
+      rw [List.getElem?_eq_getElem hlt] at hcell
+      cases hcell
+    rw [Abs.seek_exhausted k hv']
     exact h
+  | some c =>
+    simp only []
+    rw [hc] at hcell
+    have hlt : a.i < a.A.length := by
+      by_cases hlt : a.i < a.A.length
+      · exact hlt
+      · rw [List.getElem?_eq_none (by omega)] at hcell; cases hcell
+    have hc' : a.A[a.i] = c := by
+      rw [List.getElem?_eq_getElem hlt] at hcell
+      exact (Option.some.inj hcell).symm
+    have hguard : (if it.rev = true then keyLt c.1 k else keyLt k c.1) = before a.reverse k a.A[a.i].1 := by
+      rw [h.hrev, h.arev, hc']
+      rfl
+    rw [hguard]
+    cases hb : before a.reverse k a.A[a.i].1
+    · -- the target has not been passed
+      obtain ⟨_, hseek⟩ := Abs.seek_ahead (h.sortedA hs) hlt hb
+      rw [hseek]
+      simp only [Bool.false_eq_true, if_false]
+      have hlb : a.A.drop (Abs.lowerBound a.reverse k a.A) = a.A.dropWhile (fun x => before rev x.1 k) := by
+        unfold Abs.lowerBound
+        rw [h.arev, drop_findIdx]
+        simp only [Bool.not_not]
+      apply Pre.skip
+      refine ⟨h.items, h.hpre, h.hrev, h.arev, h.aA, ?_, List.findIdx_le_length⟩
+      have hq : (fun x : Key × Pos => if it.rev = true then keyLt k x.1 else keyLt x.1 k)
+          = (fun x : Key × Pos => before rev x.1 k) := by
+        funext x
+        rw [h.hrev]
+        rfl
+      show (L.drop ((it.items.takeWhile _).length)).filter _ = a.A.drop (Abs.lowerBound a.reverse k a.A)
+      rw [hlb, hq, h.items, drop_length_takeWhile, h.aA]
+      exact (filter_dropWhile_before hs _ k).symm
+    · -- the target lies before the current key: both sides ignore the call
+      rw [Abs.seek_passed hlt hb]
+      simp only [if_true]
+      exact h
 
 theorem CSim.step {L : List (Key × Pos)} {pre : Key} {rev : Bool} {it : Iter} {a : Abs Pos}
-    (h : CSim L pre rev it a) (hs : Sorted rev L) (c : Call) (hadm : a.admissible [c] = true) :
+    (h : CSim L pre rev it a) (hs : Sorted rev L) (c : Call) :
     CSim L pre rev (it.step c) (a.step c) := by
   cases c with
   | rewind => exact h.rewind
   | next => exact h.next
-  | seek k =>
-    refine h.seek hs k ?_
-    simpa [Abs.admissible] using hadm
+  | seek k => exact h.seek hs k
 
 theorem CSim.trace {L : List (Key × Pos)} {pre : Key} {rev : Bool} (hs : Sorted rev L) (calls : List Call) :
-    ∀ {it : Iter} {a : Abs Pos}, CSim L pre rev it a → a.admissible calls = true →
+    ∀ {it : Iter} {a : Abs Pos}, CSim L pre rev it a →
       it.trace calls = a.trace calls := by
   induction calls with
-  | nil => intro it a h _; simp only [Iter.trace, Abs.trace, h.obs]
+  | nil => intro it a h; simp only [Iter.trace, Abs.trace, h.obs]
   | cons c cs ih =>
-    intro it a h hadm
-    obtain ⟨h1, h2⟩ := admissible_cons hadm
+    intro it a h
     simp only [Iter.trace, Abs.trace, h.obs]
-    rw [ih (h.step hs c h1) h2]
+    rw [ih (h.step hs c)]
 
 theorem CSim.run {L : List (Key × Pos)} {pre : Key} {rev : Bool} (hs : Sorted rev L) (calls : List Call) :
-    ∀ {it : Iter} {a : Abs Pos}, CSim L pre rev it a → a.admissible calls = true →
+    ∀ {it : Iter} {a : Abs Pos}, CSim L pre rev it a →
       CSim L pre rev (it.run calls) (a.run calls) := by
   induction calls with
-  | nil => intro it a h _; exact h
+  | nil => intro it a h; exact h
   | cons c cs ih =>
-    intro it a h hadm
-    obtain ⟨h1, h2⟩ := admissible_cons hadm
-    exact ih (h.step hs c h1) h2
+    intro it a h
+    exact ih (h.step hs c)
 
 theorem CSim.collect {L : List (Key × Pos)} {pre : Key} {rev : Bool} (f : Nat) :
     ∀ {it : Iter} {a : Abs Pos}, CSim L pre rev it a → (a.A.drop a.i).length ≤ f →
@@ -291,13 +314,13 @@ theorem CSim.collect {L : List (Key × Pos)} {pre : Key} {rev : Bool} (f : Nat) 
       have := ih h.next (by rw [hd]; rw [hR] at hf; simpa using hf)
       simp only [Iter.collect, ho, hv, hk, hval, if_true, this, hd, seen, List.map_cons]
 
-/-- from any state reached by an admissible call sequence, `Rewind` and the `Valid / Next` loop
+/-- from any state reached by any call sequence, `Rewind` and the `Valid / Next` loop
     enumerate exactly the snapshot items with the prefix, in iteration order -/
 theorem complete_engine {L : List (Key × Pos)} {pre : Key} {rev : Bool} (hs : Sorted rev L) {it : Iter}
-    {a : Abs Pos} (h : CSim L pre rev it a) (calls : List Call) (hadm : a.admissible calls = true)
+    {a : Abs Pos} (h : CSim L pre rev it a) (calls : List Call)
     (fuel : Nat) (hfuel : a.A.length ≤ fuel) :
     ((it.run calls).rewind.collect fuel) = a.A.map (fun x => (some x.1, some x.2)) := by
-  have h1 := (h.run hs calls hadm).rewind
+  have h1 := (h.run hs calls).rewind
   have hA : ∀ (cs : List Call) (b : Abs Pos), (b.run cs).A = b.A := by
     intro cs
     induction cs with
@@ -309,7 +332,7 @@ theorem complete_engine {L : List (Key × Pos)} {pre : Key} {rev : Bool} (hs : S
       cases c
       · rfl
       · simp only [Abs.step, Abs.next]; split <;> rfl
-      · rfl
+      · exact Abs.seek_A _ _
   have := CSim.collect fuel h1 (by
     simp only [Abs.rewind, List.drop_zero, hA]; exact hfuel)
   simpa [Abs.rewind, hA, seen] using this
